@@ -130,6 +130,7 @@ def execute(prog):
     w = KeyWorld(prog, sch, aa)
     from ..shims import AsyncioSeams
     seams = AsyncioSeams(aa).install()
+    sch.seams = seams
     install_policy()
     end = 'normal'
     try:
